@@ -281,8 +281,8 @@ func checkC06(c *chk.Ctx) {
 		if err != nil {
 			c.Broken("bad exported case: %v", err)
 		}
-		oc := &ocase{ex: e, pkg: fmt.Sprintf("gen/o%d", i), top: e.Schema.Files[0].Services[0].Methods[0].In}
-		em, err := w.Emit(set, e.Schema, work.EmitOpts{Plugins: []string{"go-http"}})
+		oc := &ocase{ex: e, pkg: fmt.Sprintf("gen/o%d", i), top: svcFile(e.Schema).Services[0].Methods[0].In}
+		em, err := w.Emit(set, e.Schema, work.EmitOpts{Plugins: []string{"go-http"}, PerFile: true})
 		if err != nil {
 			c.Broken("%v", err)
 		}
@@ -404,8 +404,10 @@ func checkC06(c *chk.Ctx) {
 				hasCfg(n)
 			}
 		}
-		for _, m := range oc.ex.Schema.Files[0].Messages {
-			hasCfg(m)
+		for _, f := range oc.ex.Schema.Files {
+			for _, m := range f.Messages {
+				hasCfg(m)
+			}
 		}
 		rawCache := map[string]map[string]any{}
 		rawSch := func(dir, status string) map[string]any {
